@@ -6,7 +6,7 @@
 (* definition of well-formedness (Unicode table 3-7 as a set of sequences).  *)
 EXTENDS DltCodec, TLC, Json
 CONSTANTS MaxLen, Emit
-Alphabet == {0, 65, 195, 169, 226, 130, 172, 240, 159, 255}
+Alphabet == {0, 32, 65, 195, 169, 226, 130, 172, 240, 159, 255}
 VARIABLE s
 Init == s = <<>>
 Next == Len(s) < MaxLen /\ \E b \in Alphabet : s' = Append(s, b)
